@@ -35,7 +35,10 @@ type Term struct {
 	ID      string
 	TBind   string
 	Lo, Hi  *time.Time
-	Label   string
+	// LoB / HiB are bound aliases: "id"@[?lo,?hi] takes its limits from the
+	// time values of bindings introduced by earlier clauses.
+	LoB, HiB string
+	Label    string
 }
 
 // N, L, P, B, PB, PBd build terms.
@@ -48,6 +51,9 @@ func PBd(id string, lo, hi *time.Time) Term {
 	return Term{Kind: KPBound, ID: id, Lo: lo, Hi: hi}
 }
 func Blank(label string) Term { return Term{Kind: KBlank, Label: label} }
+
+// PBdB builds a bound whose limits are bindings ("" = open side).
+func PBdB(id, lo, hi string) Term { return Term{Kind: KPBound, ID: id, LoB: lo, HiB: hi} }
 
 // TimeText renders an instant the way statements spell it.
 func TimeText(t time.Time) string { return t.Format(time.RFC3339Nano) }
@@ -72,6 +78,12 @@ func (t Term) Text() string {
 		}
 		if t.Hi != nil {
 			hi = TimeText(*t.Hi)
+		}
+		if t.LoB != "" {
+			lo = t.LoB
+		}
+		if t.HiB != "" {
+			hi = t.HiB
 		}
 		return fmt.Sprintf("%q@[%s,%s]", t.ID, lo, hi)
 	case KBlank:
@@ -141,6 +153,9 @@ func (c Clause) Bindings() []string {
 			add(t.Binding)
 		case KPBind:
 			add(t.TBind)
+		case KPBound:
+			add(t.LoB)
+			add(t.HiB)
 		}
 	}
 	tb(c.S)
